@@ -8,6 +8,7 @@ import (
 	"runtime"
 	"sort"
 	"strings"
+	"sync/atomic"
 	"testing"
 	"time"
 
@@ -565,4 +566,67 @@ func TestC11ConfigureRace(t *testing.T) {
 			return map[string]any{"mode": mode, "delayMicros": delay.Microseconds(), "scanMicros": scan.Microseconds(), "files": nFiles}
 		}, "race:"+mode)
 	}
+}
+
+// TestC11AddRace: the directory is created and removed / renamed away in a
+// tight loop while another goroutine keeps querying (every query and every
+// event tries to watch the directory again), so that watches get added to a
+// directory that is leaving at that very moment. Then a complete directory is
+// renamed into place, nothing changes any more, and the cache must converge.
+// (F19: a watch added to a directory that was already gone from the path, or
+// recorded by fsnotify under a stale entry, left the directory marked as
+// watched for good.)
+func TestC11AddRace(t *testing.T) {
+	rec := stats.For("C11", "addrace")
+	sc := newScratch(t)
+	rapid.Check(t, func(t *rapid.T) {
+		root := sc.dir()
+		defer os.RemoveAll(root)
+		d := filepath.Join(root, "d")
+		other := filepath.Join(root, "other")
+		_ = os.MkdirAll(other, 0o755)
+		dirs := []string{other, d}
+		if rapid.Bool().Draw(t, "first") {
+			dirs = []string{d, other}
+		}
+		iters := rapid.IntRange(20, 300).Draw(t, "iterations")
+		mix := rapid.SampledFrom([]string{"rename", "rmdir", "alternate"}).Draw(t, "leaves")
+		queriers := rapid.IntRange(1, 3).Draw(t, "queriers")
+		waitForInotify()
+		cache, _ := cdi.NewCache(cdi.WithSpecDirs(dirs...), cdi.WithAutoRefresh(true))
+		defer cache.Configure(cdi.WithAutoRefresh(false))
+		undecidedIfNoInotify(t, cache)
+		var stop atomic.Bool
+		done := make(chan struct{}, queriers)
+		for q := 0; q < queriers; q++ {
+			go func() {
+				for !stop.Load() {
+					_ = cache.ListDevices()
+				}
+				done <- struct{}{}
+			}()
+		}
+		for i := 0; i < iters; i++ {
+			_ = os.Mkdir(d, 0o755)
+			if mix == "rename" || (mix == "alternate" && i%2 == 0) {
+				_ = os.Rename(d, filepath.Join(root, fmt.Sprintf("away%d", i)))
+			} else {
+				_ = os.Remove(d)
+			}
+		}
+		stop.Store(true)
+		for q := 0; q < queriers; q++ {
+			<-done
+		}
+		stage := filepath.Join(root, "stage")
+		_ = os.MkdirAll(stage, 0o755)
+		_ = os.WriteFile(filepath.Join(stage, "x.json"), c11ScriptContent("valid:a", iters), 0o644)
+		_ = os.Rename(stage, d)
+		ok, got, want, _ := converge(cache, dirs, 10*time.Second)
+		c := map[string]any{"iterations": iters, "leaves": mix, "queriers": queriers, "dirFirst": dirs[0] == d}
+		if !ok {
+			t.Fatalf("C11 violated: a directory created and %s %d times under concurrent queries, then a complete directory renamed into place: 10 s later the auto-refresh cache still differs from a fresh one\ncache:\n%s\nfresh:\n%s\ndirectory errors: %v\nwatches:\n%s", mix, iters, got, want, cache.GetSpecDirErrors(), obs.WatchDiag([]string{d}))
+		}
+		rec.Case(iters >= 50, canonJSON(c), func() any { return c }, "addrace", "leaves:"+mix)
+	})
 }
